@@ -947,7 +947,7 @@ def gen_cases(rng, tier):
             cases.append({"kind": "err", "src": {"text": ""}, "seed": rng.randrange(10 ** 9), "n": 1, "version": rng.choice(["1.0", "2.x"])})
     for _ in range(n_fmt):
         cases.append(gen_fmt_case(rng))
-    for _ in range(300 if quick else 4000):
+    for _ in range(300 if quick else 2500):
         # whole configuration directories: several .co files + config.yml + imports (repeated, circular, missing, standard
         # library, local modules), Colang 2.x and 1.0, each with an edit that cannot change the meaning
         cases.append(cfgk.gen_cfg_case(rng))
